@@ -245,6 +245,10 @@ def _finish_path(h, E, st, kind, sig, err, tb, validate_every, npaths):
         if conc is not None and conc['kind'] == 'exc' and conc['sig'] == err.split(':')[0]:
             st['cex'].append({'harness': h.name, 'label': 'unexpected-exception:' + conc['sig'], 'values': jsonable(values),
                               'detail': err})
+        elif conc is not None and _concrete_failure(conc):
+            # the shadow values could not follow the code here, but the replay of the same inputs on the real code (no modelling involved)
+            # fails an obligation or lets an unanticipated exception escape: that is a reproduced violation
+            _concrete_cex(h, st, conc, values, 'symbolic run raised %s; concrete replay of the path\'s model' % err.split(':')[0])
         else:
             # raised only under symbolic execution (a numpy/C routine the shadow values cannot enter, or an interrupted solver call
             # surfacing as an exception inside repository code that catches Exception): the path is inconclusive, not a verdict
@@ -279,10 +283,28 @@ def _finish_path(h, E, st, kind, sig, err, tb, validate_every, npaths):
             conc2 = run_concrete(h, v2) if v2 is not None else None
             if conc2 is not None and conc2['kind'] == 'ret' and _sigkey(conc2['sig']) == _sigkey(sig) and not conc2['failed']:
                 st['validated'] += 1
+            elif _concrete_failure(conc) and (conc2 is None or _concrete_failure(conc2)):
+                # the witness run of this path on the real code fails an obligation (or raises) although the symbolic run discharged everything:
+                # an encoding gap in the shadow values, but the concrete failure itself is real and reproduced (dyadic re-draw fails too)
+                st['val_mismatch'].append({'harness': h.name, 'values': jsonable(values), 'symbolic': jsonable(sig), 'concrete': jsonable(conc.get('sig')),
+                                           'kind': conc['kind'], 'failed': conc['failed'], 'tb': conc.get('tb')})
+                _concrete_cex(h, st, conc, values, 'witness run of a path whose symbolic obligations were all discharged')
             else:
                 st['val_mismatch'].append({'harness': h.name, 'values': jsonable(values), 'symbolic': jsonable(sig),
                                            'concrete': jsonable(conc.get('sig')), 'kind': conc['kind'],
                                            'failed': conc['failed'], 'tb': conc.get('tb')})
+
+
+def _concrete_failure(conc):
+    return conc is not None and ((conc['kind'] == 'ret' and conc['failed']) or conc['kind'] == 'exc')
+
+
+def _concrete_cex(h, st, conc, values, how):
+    labels = list(dict.fromkeys(conc['failed'])) if conc['kind'] == 'ret' else ['unexpected-exception:' + str(conc['sig'])]
+    for label in labels:
+        if any(c['label'] == label for c in st['cex']):
+            continue
+        st['cex'].append({'harness': h.name, 'label': label, 'values': jsonable(values), 'detail': 'concrete run only (%s)%s' % (how, (': ' + conc['tb'][-300:]) if conc.get('tb') else '')})
 
 
 def _confirm(h, E, st, label, vals):
